@@ -251,9 +251,9 @@ def cli_main():
         print('\rerasing: 0x{:08x}'.format(addr), end='', flush=True)
         dfuse_erase_page(dev, addr)
 
-        # poll state til not busy
+        # poll state til not busy (an error status ends the wait whichever state comes with it)
         status, state = dfu_get_status(dev)
-        while state == STATE_DFU_DNBUSY:
+        while state == STATE_DFU_DNBUSY and status == STATUS_OK:
             status, state = dfu_get_status(dev)
 
         if status != STATUS_OK:
@@ -274,9 +274,9 @@ def cli_main():
         print('\rwriting: 0x{:08x}'.format(addr), end='', flush=True)
         dfuse_set_address(dev, addr)
 
-        # poll state til not busy
+        # poll state til not busy (an error status ends the wait whichever state comes with it)
         status, state = dfu_get_status(dev)
-        while state == STATE_DFU_DNBUSY:
+        while state == STATE_DFU_DNBUSY and status == STATUS_OK:
             status, state = dfu_get_status(dev)
 
         if status != STATUS_OK:
@@ -288,7 +288,7 @@ def cli_main():
 
         # poll status til not idle or error
         status, state = dfu_get_status(dev)
-        while state not in [STATE_DFU_DNLOAD_IDLE, STATE_DFU_ERROR]:
+        while state not in [STATE_DFU_DNLOAD_IDLE, STATE_DFU_ERROR] and status == STATUS_OK:
             status, state = dfu_get_status(dev)
 
         if status != STATUS_OK:
